@@ -39,6 +39,11 @@ func (e *Env) MaybeCheck() {
 }
 
 func (e *Env) CheckAll() {
+	e.observeWith(e.L, e.Dir, e.ownTags(), "log")
+}
+
+// ownTags: the parts of an observation this profile's property owns.
+func (e *Env) ownTags() obsTags {
 	t := obsTags{}
 	if e.own("next") {
 		t.next = "next"
@@ -61,7 +66,7 @@ func (e *Env) CheckAll() {
 	if e.own("stat") {
 		t.stat = "stat"
 	}
-	e.observeWith(e.L, e.Dir, t, "log")
+	return t
 }
 
 func (e *Env) scan(l klevdb.Log, tag, what string) []klevdb.Message {
